@@ -125,7 +125,14 @@ impl<const N: usize, T: Send + Sync> AtomicIter<T> for ConIterOfArray<N, T> {
     }
 
     fn early_exit(&self) {
-        self.counter().store(N)
+        // jumps over the end: positions prev..N are not reserved and can no longer be reserved;
+        // hence, the skipped elements are owned by the caller and are dropped here
+        let prev = self.counter().fetch_and_add(N);
+        if prev < N {
+            let array = unsafe { &mut *self.array.get() };
+            let skipped = unsafe { TakenSlice::new(array.as_mut_ptr().add(prev), N - prev) };
+            drop(skipped);
+        }
     }
 }
 
